@@ -386,6 +386,16 @@ func (g *Gen) show(t *Type, e Expr) Expr {
 
 // ---- types used for parameters / results ---------------------------------------
 
+func (g *Gen) pickParamType() *Type {
+	if g.R.Chance(0.35) {
+		if g.R.Bool() {
+			return TUnion(core.Pick(g.R, g.unions).Name)
+		}
+		return TRec(core.Pick(g.R, g.recs).Name)
+	}
+	return g.pickValueType()
+}
+
 func (g *Gen) pickValueType() *Type {
 	switch g.R.Intn(10) {
 	case 0, 1, 2:
@@ -416,7 +426,7 @@ func (g *Gen) genFunc(pure bool) {
 			t = TFunc(a, b)
 			g.feat("func-typed-param")
 		} else {
-			t = g.pickValueType()
+			t = g.pickParamType()
 		}
 		p := Param{Name: g.fresh("p"), T: t}
 		f.Params = append(f.Params, p)
@@ -481,9 +491,27 @@ func (g *Gen) genRecursive() {
 }
 
 func (g *Gen) genRun() {
-	sc := &scope{goNames: map[string]bool{}}
+	// The observation calls are spread over several small functions: fc allots a fixed
+	// number of type variables per top-level definition, which one huge Run would exhaust.
+	var parts []string
+	var sc *scope
 	var stmts []Stmt
+	flush := func() {
+		if len(stmts) == 0 {
+			return
+		}
+		name := fmt.Sprintf("runPart%d", len(parts)+1)
+		parts = append(parts, name)
+		g.add(&FuncDef{Name: name, Ret: TUnit, Body: &Block{Stmts: stmts, Result: call("trace", &StrLit{name})}})
+		stmts = nil
+	}
+	nCalls := 0
 	emitShow := func(t *Type, e Expr) {
+		if nCalls%3 == 0 {
+			flush()
+			sc = &scope{goNames: map[string]bool{}}
+		}
+		nCalls++
 		if t.K == KUnit {
 			stmts = append(stmts, &ExprStmt{e})
 			return
@@ -497,12 +525,17 @@ func (g *Gen) genRun() {
 		}
 		stmts = append(stmts, &ExprStmt{call("frt.Println", g.show(t, e))})
 	}
+	sc = &scope{goNames: map[string]bool{}}
 	for _, f := range g.funcs {
 		times := 1 + g.R.Intn(2)
 		if f.Rec {
 			times = 1
 		}
 		for k := 0; k < times; k++ {
+			if nCalls%3 == 0 {
+				flush()
+				sc = &scope{goNames: map[string]bool{}}
+			}
 			var args []Expr
 			if len(f.Params) == 0 {
 				args = []Expr{&UnitLit{}}
@@ -520,8 +553,12 @@ func (g *Gen) genRun() {
 	for _, gv := range g.gvars {
 		emitShow(gv.T, v(gv.Name))
 	}
-	run := &FuncDef{Name: "Run", Ret: TUnit, Body: &Block{Stmts: stmts, Result: call("trace", &StrLit{"end"})}}
-	g.add(run)
+	flush()
+	var rs []Stmt
+	for _, p := range parts {
+		rs = append(rs, &ExprStmt{call(p, &UnitLit{})})
+	}
+	g.add(&FuncDef{Name: "Run", Ret: TUnit, Body: &Block{Stmts: rs, Result: call("trace", &StrLit{"end"})}})
 }
 
 // ---- blocks -----------------------------------------------------------------------
@@ -793,6 +830,10 @@ func (g *Gen) unionSource(sc *scope, d int, fx bool) (Expr, *UnionDef) {
 		if f.Ret.Eq(ut) && !f.Rec && (fx || f.Pure) && g.R.Chance(0.5) && f != g.curFunc {
 			return g.callFunc(f, sc, d-1, fx), ud
 		}
+	}
+	// a constructor application (as in samples/union_match.fo: `match IT 3 with`)
+	if g.R.Chance(0.6) {
+		return g.lit(ut, sc, d-1, fx), ud
 	}
 	return nil, ud
 }
